@@ -68,12 +68,13 @@ type startRec struct {
 }
 
 type view struct {
-	h      *Hist
-	evs    []Ev
-	tasks  []*taskView
-	starts []startRec // in order of the cleared events
-	marks  map[string]uint64
-	last   uint64
+	h         *Hist
+	evs       []Ev
+	tasks     []*taskView
+	starts    []startRec // in order of the cleared events
+	marks     map[string]uint64
+	last      uint64
+	structure []finding
 }
 
 type finding struct {
@@ -95,6 +96,10 @@ func buildView(h *Hist, evs []Ev) *view {
 		switch e.K {
 		case "mark":
 			v.marks[e.Op] = e.Seq
+			if strings.HasPrefix(e.Op, "structure:") {
+				v.structure = append(v.structure, finding{"C07:structure:list-membership:" + strings.TrimPrefix(e.Op, "structure:"),
+					"at an idle point (no call in flight, nothing executing, all task states and list lengths identical in three readings separated by two passes of a sentinel task through the queue, no event in between) " + e.C})
+			}
 		case "call":
 			calls[e.ID] = e
 		case "ret":
@@ -521,7 +526,10 @@ func (v *view) checkT5a() (out []finding, pairs int) {
 // ---------------------------------------------------------------------------------
 // T5b (gate): exact comparison with the sequential model.
 
-func (v *view) checkGate() (out []finding, inconclusive string) {
+// With prefixOnly the history did not reach quiescence: the starts observed so far must
+// still be a prefix of the model order (a task that the model puts first but that was
+// overtaken shows as a mismatch at its position); missing starts are not judged.
+func (v *view) checkGate(prefixOnly bool) (out []finding, inconclusive string) {
 	exp := expectedGateOrder(v.h)
 	var obs []int
 	type br struct {
@@ -567,7 +575,7 @@ func (v *view) checkGate() (out []finding, inconclusive string) {
 	if len(obs) > len(exp) {
 		return []finding{{"C07:order:gated:extra-start", fmt.Sprintf("gated batch: more starts than the model allows; expected order %v, observed %v", exp, obs)}}, ""
 	}
-	if len(obs) < len(exp) {
+	if len(obs) < len(exp) && !prefixOnly {
 		return []finding{{"C07:order:gated:missing-start", fmt.Sprintf("gated batch: at quiescence fewer starts than the model demands; expected order %v, observed %v", exp, obs)}}, ""
 	}
 	return nil, ""
